@@ -15,6 +15,9 @@ def run(chk, replay=None, prop="C03"):
     # expected delays re-configured between two episodes of the same graph object: phases (hence the schedule, the blocking counts and the expected
     # arrivals of buffered jitter) of the second episode follow
     variants["set_delay_between"] = dict(drive="reset_step", episodes=2, between="auto")
+    # the user thread is descheduled inside reset() between starting one node and the next: outputs of nodes that already run reach connections whose
+    # receiver is not started yet - none of them may be lost or re-timed
+    variants["start_pause"] = dict(drive="reset_step", perturb=dict(kind="points", points=["start:node"], ms=60))
     count = [0]
     def gen(rnd, max_nodes=4):
         count[0] += 1
